@@ -72,3 +72,49 @@ func VerifC09_InheritedErrorsOrder() {
 	}
 	verifAssert("inherited-errors-in-declaration-order", got == want)
 }
+
+// VerifC09_RouteParamsOrder: the path parameters of a route of a service with
+// several base paths come in order of first appearance, whatever order Go
+// iterates maps in.
+func VerifC09_RouteParamsOrder() {
+	Root = &RootExpr{API: &APIExpr{Name: "a", HTTP: &HTTPExpr{Path: "/"}}}
+	bases := [][]string{
+		{"/v1/{region}", "/v2/{shelf}/{region}"},
+		{"/a/{bin}/{item}", "/b/{item}/{bin}", "/c/{zone}"},
+	}
+	bi := nondetChoice("bases", len(bases))
+	svc := &HTTPServiceExpr{ServiceExpr: &ServiceExpr{Name: "s"}, Paths: bases[bi]}
+	ep := &HTTPEndpointExpr{MethodExpr: &MethodExpr{Name: "m"}, Service: svc}
+	r := &RouteExpr{Method: "GET", Path: "/x/{id}/{part}", Endpoint: ep}
+	want := map[int]string{0: "region,id,part,shelf,", 1: "bin,item,id,part,zone,"}[bi]
+	got := want
+	for rep := 0; rep < verifNativeRepeat() && got == want; rep++ {
+		verifMapOrder(2)
+		ps := r.Params()
+		verifMapOrder(0)
+		got = ""
+		for _, p := range ps {
+			got += p + ","
+		}
+	}
+	verifAssert("route-params-in-order-of-first-appearance", got == want)
+}
+
+// vClockRand is a deterministic randomizer whose Int is large enough for a
+// modulus taken from the clock to matter.
+type vClockRand struct{ DeterministicRandomizer }
+
+func (vClockRand) Int() int { return 5000000123 }
+
+// VerifC09_ExamplesIndependentOfTime: generated example values are a function
+// of the design and the randomizer alone, not of when the generator runs.
+func VerifC09_ExamplesIndependentOfTime() {
+	formats := []ValidationFormat{FormatDate, FormatDateTime, FormatRFC1123, FormatEmail, FormatUUID}
+	f := formats[nondetChoice("format", len(formats))]
+	att := &AttributeExpr{Type: String, Validation: &ValidationExpr{Format: f}}
+	e1, _ := byFormat(att, &ExampleGenerator{Randomizer: vClockRand{}}).(string)
+	verifAdvanceClock()
+	e2, _ := byFormat(att, &ExampleGenerator{Randomizer: vClockRand{}}).(string)
+	verifAssert("example-is-a-string", e1 != "")
+	verifAssert("example-independent-of-the-clock", e1 == e2)
+}
